@@ -710,7 +710,21 @@ pub fn build_pool(seed: u64, repo: &str, sz: &PoolSizes, focus: Option<&PoolFocu
         let v = vocab(Some(e));
         for _ in 0..sz.sibling_families_per_ev {
             let mut fam: Vec<String> = Vec::new();
-            match r.below(4) {
+            match r.below(5) {
+                4 => {
+                    // the same formula spelled with different whitespace (the library strips whitespace: the raw texts
+                    // differ, the formula does not)
+                    let depth = [1usize, 2, 2][r.below(3)];
+                    let base = gen_expr(&mut r, &v, depth, 0.6);
+                    if base.chars().count() <= 60 {
+                        fam.push(base.clone());
+                        let spaced: String = base.chars().map(|c| if "+-*/^,()".contains(c) { format!(" {} ", c) } else { c.to_string() }).collect();
+                        fam.push(spaced.trim().to_string());
+                        fam.push(format!(" {}", base));
+                        fam.push(format!("{}\t", base));
+                        fam.push(sprinkle_ws(&mut r, &base));
+                    }
+                }
                 0 | 1 => {
                     // long literals with a common tail and different heads (and the other way round)
                     let tail_len = [8usize, 8, 9, 10, 12][r.below(5)];
